@@ -40,7 +40,7 @@ STYLES = ['google', 'freeform', 'auto']
 def required_cells(tier):
     return ['style:google', 'style:freeform', 'style:auto', 'feature:async', 'feature:nested-func',
             'feature:class-in-func', 'feature:method:setter', 'feature:method:deleter', 'feature:method:nestedcls',
-            'feature:top:main', 'feature:module-docstring', 'feature:top:adeco', 'feature:top:ctxmgr', 'feature:top:subclass', 'feature:top:handler', 'feature:top:matcharm', 'feature:top:tryelse', 'feature:top:forbody', 'feature:method:setter_stacked', 'feature:method:getter_again', 'feature:top:notmain', 'feature:top:bytesdoc', 'feature:main-guard-else', 'feature:google-header-on-the-opening-line', 'feature:google-headers-in-other-spellings', 'feature:method:ctxmethod', 'tree:missing-init', 'tree:ok', 'tree:holds-an-unparsable-module', 'history:file-edited-then-collected-again', 'history:repaired-after-a-syntax-error', 'tree:by-name:not-imported', 'tree:by-name:imported',
+            'feature:top:main', 'feature:module-docstring', 'feature:top:adeco', 'feature:top:ctxmgr', 'feature:top:subclass', 'feature:top:handler', 'feature:top:matcharm', 'feature:top:tryelse', 'feature:top:forbody', 'feature:method:setter_stacked', 'feature:method:getter_again', 'feature:top:notmain', 'feature:top:bytesdoc', 'feature:main-guard-else', 'feature:google-header-on-the-opening-line', 'feature:google-headers-in-other-spellings', 'feature:method:ctxmethod', 'tree:missing-init', 'tree:ok', 'tree:holds-an-unparsable-module', 'history:file-edited-then-collected-again', 'history:repaired-after-a-syntax-error', 'tree:by-name:not-imported', 'tree:by-name:imported', 'tree:by-name:same-name-in-the-working-directory',
             'cli-list', 'calldefs']
 
 
@@ -268,11 +268,28 @@ def check_tree(ctx, idx, seed):
                     except Exception:
                         break
                 ctx.evaluation()
+                # the working directory may hold an entry of the same name that is no module (a directory without
+                # __init__.py, a suffix-less file): a NAME is looked up the way the interpreter imports it
+                decoy = None
+                old_cwd = os.getcwd()
+                if idx % 2 == 0:
+                    decoy = os.path.join(root, 'cwd_%s' % when)
+                    os.makedirs(decoy)
+                    if idx % 4 == 0:
+                        os.mkdir(os.path.join(decoy, pkgname))
+                    else:
+                        with open(os.path.join(decoy, pkgname), 'w') as f:
+                            f.write('#!/bin/sh\n')
+                    os.chdir(decoy)
                 try:
                     exs, wl = collect(pkgname, 'google')
                 except Exception as ex:
                     ctx.violation('collect-raised', 'parse_doctestables(%r) by module name raised %r; files %r' % (pkgname, ex, listing), case)
                     break
+                finally:
+                    os.chdir(old_cwd)
+                if decoy is not None:
+                    ctx.cell('tree:by-name:same-name-in-the-working-directory')
                 got = [m for e in exs for m in sorted(set(gm.MARK_RE.findall(e.docsrc)))]
                 if sorted(got) != sorted(exp):
                     ctx.violation('package-walk', 'the package named by its module name (%s in this process) yields %r beyond / '
